@@ -25,6 +25,7 @@ type LogItem struct {
 type Region struct {
 	Base, Size Term // Size in bytes, as BV64 unsigned
 	Fresh      bool
+	Cond       Term // region exists only under this condition
 }
 
 // MemNames are the width-partitioned heap arrays (address -> value).
@@ -105,6 +106,9 @@ func (st *State) clone() *State {
 
 func (st *State) declare(name string, s Sort) Term {
 	st.log = append(st.log, LogItem{Kind: LDecl, Name: name, Sort: s})
+	if s.K == KInt {
+		st.log = append(st.log, LogItem{Kind: LAssume, T: InTypeRange(Term{name, s}), Note: "def"})
+	}
 	return Term{name, s}
 }
 
@@ -157,7 +161,7 @@ func (e *Engine) memFor(t types.Type) (string, Sort) {
 	switch s.K {
 	case KBool:
 		return "M8", s
-	case KBV:
+	case KBV, KInt:
 		return fmt.Sprintf("M%d", s.W), s
 	case KFP:
 		return fmt.Sprintf("MF%d", s.W), s
